@@ -23,7 +23,7 @@ ATOMS_FULL = [
 ATOMS_SMALL = [atom('p'), atom('q', X), atom('r', X, Y), cmp(X, '<', num(3))]
 QUANTS = [('forall', [var('X')]), ('exists', [var('X')]), ('forall', [var('X', 'i')]),
           ('exists', [var('X'), var('Y')]), ('forall', [var('S', 's'), var('X', 'i')])]
-NAME_POOL = ['p', 'h', 't', 'hp', 'tp', 'thp', 'ht', 'hh']
+NAME_POOL = ['p', 'h', 't', 'hp', 'tp', 'thp', 'ht', 'hh', 'ttp', 'htp', 'tt']
 
 
 def generate(tier, seed):
@@ -49,6 +49,10 @@ def generate(tier, seed):
     for n1, n2 in itertools.permutations(NAME_POOL, 2):
         names.append(imp(atom(n1), neg(atom(n2, X))))
         names.append(iff(neg(atom(n1, X)), atom(n2, X)))
+        # the same arity on both: a copy name of one predicate is the original name of the other, in one subformula
+        names.append(neg(conj(atom(n1), atom(n2))))
+        names.append(imp(atom(n1, X), disj(atom(n2, X), neg(atom(n1, Y)))))
+        names.append(forall([var('X')], rimp(atom(n1, X, X), neg(atom(n2, X, Y)))))
     names.append(conjoin([disj(atom(n), neg(atom(n, X))) for n in NAME_POOL]))
     # depth 3/4: the alternations the property names (implication / negation / quantifier)
     d3 = []
